@@ -592,7 +592,7 @@ class FileSet:
             return self.read(filename)
 
     def __len__(self):
-        return sum(1 for _ in self.find())
+        return sum(1 for _ in self.find(no_files_error=False))
 
     def __setitem__(self, key, value):
         if isinstance(key, (tuple, list)):
